@@ -24,6 +24,13 @@ theorem recvG_never_crashes (first : Bool) (i : Nat) (reqs : List FReq) : recvG 
 
 theorem recv_never_crashes (reqs : List FReq) : recv reqs ≠ .crash := recvG_never_crashes true 0 reqs
 
+/-- ... also when the stream breaks with an unexpected error; what was handed on before is unaffected. -/
+theorem recvE_never_crashes (endErr : Bool) (reqs : List FReq) : recvE endErr reqs ≠ .crash := by
+  unfold recvE
+  cases h : recv reqs with
+  | crash => exact absurd h (recv_never_crashes reqs)
+  | done o => simp only; split <;> simp
+
 /-- Without the `req.Node == nil` guard a first request without a Node message kills the goroutine. -/
 theorem recv_crash_witness_unguarded : recvG false true 0 [{ ty := .cds, node := .nil }] = .crash := by decide
 
@@ -84,53 +91,34 @@ theorem recv_probes_only (probes : List FReq) (hp : ∀ p ∈ probes, p.ty = .he
   rw [this]; simp [recvG]
 
 /-- A health probe or a debug request never starts a watch and a probe is never answered. -/
-theorem health_debug_not_watched (delta : Bool) (t : TyK) (h : t = .health ∨ t = .debug ∨ t = .debugx) :
-    (procClass delta t).2.1 = false ∧ (t = .health → (procClass delta t).1 = 0) := by
-  rcases h with h | h | h <;> subst h <;> simp [procClass]
+theorem health_debug_not_watched (delta auth : Bool) (t : TyK) (h : t = .health ∨ t = .debug ∨ t = .debugx) :
+    (procClass delta auth t).2.1 = false ∧ (t = .health → (procClass delta auth t).1 = 0) := by
+  rcases h with h | h | h <;> subst h <;> cases auth <;> simp [procClass]
 
 def TyK.control (t : TyK) : Bool := t = .health ∨ t = .debug ∨ t = .debugx
 
-/-- Over a whole stream: no health probe and no debug request ever starts a watch. -/
-theorem procSeq_control_not_watched (delta : Bool) (watched : List TyK) (tys : List TyK)
-    (hw : ∀ t ∈ watched, t.control = false) :
-    ∀ e ∈ procSeq delta watched tys, e.1.control = true → e.2.2.1 = false := by
+theorem procStep_control (delta auth : Bool) (watched : List TyK) (t : TyK) (nack : Bool) (hc : t.control = true) :
+    (procStep delta auth watched t nack).2.1 = false := by
+  have h : t = .health ∨ t = .debug ∨ t = .debugx := by simpa [TyK.control] using hc
+  simp only [procStep, h, if_true]
+  exact (health_debug_not_watched delta auth t h).1
+
+/-- Over a whole stream, authenticated or not, with or without `error_detail`: no health probe and no debug request
+    ever starts a watch (in particular a debug RESPONSE that goes out does not record a nonce for a watch). -/
+theorem procSeq_control_not_watched (delta auth : Bool) (watched : List TyK) (tys : List (TyK × Bool)) :
+    ∀ e ∈ procSeq delta auth watched tys, e.1.control = true → e.2.2.1 = false := by
   induction tys generalizing watched with
   | nil => simp [procSeq]
   | cons t ts ih =>
     intro e he hc
+    obtain ⟨t, nack⟩ := t
     simp only [procSeq, List.mem_cons] at he
     rcases he with he | he
     · subst he
-      have hnw : watched.contains t = false := by
-        cases h : watched.contains t
-        · rfl
-        · have := hw t (by simpa using h)
-          simp only at hc
-          rw [this] at hc; cases hc
-      simp only [procStep, hnw, Bool.and_false, Bool.false_eq_true, if_false]
-      simp only at hc
-      cases t <;> simp [TyK.control] at hc <;> simp [procClass]
-    · refine ih _ ?_ e he hc
-      intro x hx
-      split at hx
-      · rename_i hwt
-        simp only [List.mem_cons] at hx
-        rcases hx with hx | hx
-        · subst hx
-          cases hcx : x.control
-          · rfl
-          · exfalso
-            have hnw : watched.contains x = false := by
-              cases h : watched.contains x
-              · rfl
-              · have := hw x (by simpa using h)
-                rw [this] at hcx; cases hcx
-            simp only [procStep, hnw, Bool.and_false, Bool.false_eq_true, if_false] at hwt
-            cases x <;> simp [TyK.control] at hcx <;> simp [procClass] at hwt
-        · exact hw x hx
-      · exact hw x hx
+      exact procStep_control delta auth watched t nack hc
+    · exact ih _ e he hc
 
-example : recv [⟨.health, .nil⟩, ⟨.cds, .ok⟩, ⟨.unknown, .nil⟩] =
+example : recv [{ ty := .health, node := .nil }, { ty := .cds, node := .ok }, { ty := .unknown, node := .nil, nack := true }] =
     .done { fwd := [1, 2], err := .none, init := true } := by decide
 
 end IstioModel.C04
